@@ -177,7 +177,10 @@ def verifyOwnership (cr : Crypto) (signDataBytes : Bytes) (seq : Nat) (doc : Doc
     if vm.type ≠ es256k2019 ∧ vm.type ≠ es256k2018 then .err "did/15:key-type" else
     let pk := b58Decode vm.pubKeyB58
     if pk.length ≠ 33 then .err "did/10:pubkey" else
-    if cr.verify pk (signBytes signDataBytes seq) sig then .ok (nextSeq seq) else .err "did/9:sig"
+    if cr.verify pk (signBytes signDataBytes seq) sig then
+      -- the sequence space is exhausted: the next sequence would wrap around to 0, "the DID does not exist" (F23)
+      if nextSeq seq = 0 then .err "did/12:seq-exhausted" else .ok (nextSeq seq)
+    else .err "did/9:sig"
 
 /-! ## State, messages, handlers -/
 
